@@ -207,6 +207,16 @@ class SymEx:
                 out[name] = val.as_long()
             else:
                 out[name] = bool(z3.is_true(val))
+        for name, (cv, sv) in self.c.angle_inputs.items():
+            if name in out:
+                cval = _z3_to_float(m.eval(cv, model_completion=True))
+                sval = _z3_to_float(m.eval(sv, model_completion=True))
+                if abs(cval) + abs(sval) > 1e-9:
+                    ang = math.atan2(sval, cval)
+                    kind, v, lo, hi = self.c.inputs[name]
+                    if lo is not None and lo >= 0 and ang < 0:
+                        ang += 2 * math.pi
+                    out[name] = ang
         uf = {}
         for name, tab in getattr(self.c, 'ufuns', {}).items():
             uf[name] = [(_z3_to_float(m.eval(a, model_completion=True)),
@@ -353,6 +363,8 @@ class SymEx:
         else:
             r, m = c._check(P.b_z3(cond))
             ok = (r == 'sat')
+            if not ok and r == 'unknown':
+                ok = c.guided(P.b_z3(cond), tries=6) is not None
         self.claims.append(Claim(label, 'held' if ok else 'inconclusive',
                                  None if ok else 'no witness'))
         return ok
